@@ -1629,6 +1629,23 @@ var rR16z = RuleRef{Name: "R16z", Doc: "two pinned mechanisms of the Raft librar
 // whose every return is the ok of `param.field[keyParam]` (s.has(key)). Returns the canonical names of the map and the
 // key in the caller's terms, and the map value (in the helper's terms when a helper is involved) for type tests.
 func commaOkLookup(cond ssa.Value) (mapCanon, keyCanon string, table ssa.Value, ok bool) {
+	// the ok kept in a variable cell (a named result): what was last stored into it in the block that tests it
+	if u, isU := cond.(*ssa.UnOp); isU && u.Op == token.MUL {
+		if al, isAl := u.X.(*ssa.Alloc); isAl {
+			var last ssa.Value
+			for _, in := range u.Block().Instrs {
+				if in == ssa.Instruction(u) {
+					break
+				}
+				if st, isSt := in.(*ssa.Store); isSt && st.Addr == ssa.Value(al) {
+					last = st.Val
+				}
+			}
+			if last != nil {
+				return commaOkLookup(last)
+			}
+		}
+	}
 	if ex, isEx := cond.(*ssa.Extract); isEx && ex.Index == 1 {
 		if lk, isLk := ex.Tuple.(*ssa.Lookup); isLk && lk.CommaOk {
 			return canon(lk.X), canon(lk.Index), lk.X, true
